@@ -83,6 +83,8 @@ def render(scn):
         parts.append(cmd)
     line = " | ".join(parts)
     form = scn.get("form", "bare")
+    if form == "background":
+        return line + " &"
     return {"bare": line, "bang": f"![{line}]", "dollarsq": f"$[{line}]", "dollar": f"_v = $({line})", "object": f"_p = !({line})\n_p.end()\n_o = _p.out", "objectlazy": f"_p = !({line})\n_r = _p.rtn"}[form]
 
 
@@ -153,6 +155,7 @@ def snapshot(XSH):
         env.pop(k, None)
     return {
         "fds": fd_classes(fd_table()),
+        "fdfiles": sorted((fd, t) for fd, t in fd_table().items() if not t.startswith(("pipe:", "socket:", "anon_inode:"))),
         "threads": sorted(t.name for t in threading.enumerate() if t.is_alive()),
         "children": sorted(children()),
         "zombies": len(zombies()),
@@ -242,6 +245,11 @@ def run(ctx, scn):
     grown = {c: [before["fds"].get(c, 0), n] for c, n in after["fds"].items() if n > before["fds"].get(c, 0)}
     if grown:
         diff["fds"] = grown
+    # a descriptor of the session itself (a file, the terminal, /dev/null - not a pipe of the warm-up that a
+    # helper was still closing) that is gone or points elsewhere afterwards: the command closed what it did not own
+    lost = [[fd, t] for fd, t in before["fdfiles"] if (fd, t) not in after["fdfiles"]]
+    if lost:
+        diff["fds_lost"] = lost
     more_threads = [t for t in after["threads"] if t not in before["threads"]]
     if more_threads:
         diff["threads"] = more_threads
